@@ -226,6 +226,11 @@ func (k c14case) key() string {
 	var parts []string
 	for i, v := range k.s {
 		if v != k.t.base[i] {
+			if len(v) > 64 {
+				// a long value: its length and both ends identify it
+				parts = append(parts, fmt.Sprintf("%s.%s:string=%x..%x(%d bytes)", k.t.name, k.t.strs[i], v[:4], v[len(v)-4:], len(v)))
+				continue
+			}
 			parts = append(parts, fmt.Sprintf("%s.%s:string=%x", k.t.name, k.t.strs[i], v))
 		}
 	}
@@ -787,8 +792,11 @@ func (h *c14h) failCase(k c14case, class, detail string, out []byte) {
 			if keepNums {
 				copy(p.n, k.n)
 			}
-			if cl, _, _, _ := h.judgeSingle(p); cl == class {
-				h.canonStr(p, i, class)
+			if cl, d, o, _ := h.judgeSingle(p); cl == class {
+				if h.canonStr(p, i, class) == 0 {
+					// no short string fails the same way: the value itself (its length) is the witness
+					h.report(p, cl, d, o)
+				}
 				reduced = true
 				break
 			}
@@ -799,13 +807,12 @@ func (h *c14h) failCase(k c14case, class, detail string, out []byte) {
 	}
 }
 
-func (h *c14h) canonStr(p c14case, slot int, class string) {
+func (h *c14h) canonStr(p c14case, slot int, class string) (found int) {
 	ck := fmt.Sprintf("%s|%d|%v|%s", p.t.name, slot, p.n, class)
 	if h.canon[ck] {
-		return
+		return 1
 	}
 	h.canon[ck] = true
-	found := 0
 	for idx := 0; idx < c14count(3) && found < 3; idx++ {
 		q := c14case{t: p.t, s: append([]string(nil), p.s...), n: p.n}
 		q.s[slot] = c14str(idx)
@@ -814,6 +821,10 @@ func (h *c14h) canonStr(p c14case, slot int, class string) {
 			found++
 		}
 	}
+	if found == 0 {
+		delete(h.canon, ck)
+	}
+	return found
 }
 
 // next advances the global case index and tells whether the case is this shard's.
@@ -978,6 +989,22 @@ func (h *c14h) values() {
 					continue // scan/proto/host do not depend on the payload shape
 				}
 				h.cross(fmt.Sprintf("%s/%s/len<=3", tn, t.strs[si]), f, []int{si}, n3, nil)
+			}
+		}
+		// 2b. every string slot on its own with LONG values (the quantifier says "very long values"): around the
+		// sizes of an encoder's buffer chunks (128, 256, 512, 1024, 4096 bytes) and a 70 kB value, plain and
+		// with a character that needs escaping at the end
+		for si := range t.strs {
+			h.cur = fmt.Sprintf("%s/%s/long-values", tn, t.strs[si])
+			for _, L := range []int{100, 126, 127, 128, 129, 200, 255, 256, 257, 511, 512, 513, 1023, 1024, 1025, 4095, 4096, 4097, 70000} {
+				for _, tail := range []string{"", "\"", "\n", "\xff"} {
+					if !h.next() {
+						continue
+					}
+					k := c14case{t: t, s: append([]string(nil), base.s...), n: append([]int64(nil), base.n...)}
+					k.s[si] = strings.Repeat("v", L-len(tail)) + tail
+					h.add(k)
+				}
 			}
 		}
 		// 3. all string slots together at length <= 1, times the numeric fields
